@@ -107,7 +107,7 @@ REQUIRED = ["CifModel.C12_clean", "CifModel.C12_first_report_is_policy_free", "C
             "CifModel.C12_invalid_char_lead_anywhere", "CifModel.C12_several_defects_bare", "CifModel.C12_invalid_char_lead_bare",
             "CifModel.Model.Lexer.multiS", "CifModel.Model.Lexer.EvUnq.lead", "CifModel.Model.Lexer.multi_bare",
             "CifModel.Model.Lexer.EvText.lead", "CifModel.Model.Lexer.multi_text_scan", "CifModel.Model.Lexer.multi_text",
-            "CifModel.C12_several_defects_text",
+            "CifModel.C12_several_defects_text", "CifModel.C12_several_defects_comment_eof",
             # any depth of nesting; frames not allowed (max_frame_depth = 0)
             "CifModel.Model.Parser.Seg.nest", "CifModel.Lemmas.DefectChars.nest_fuel", "CifModel.Props.C12_chars_in_frames",
             "CifModel.Props.C12Frames.C12_chars_in_frames_instance",
@@ -163,11 +163,11 @@ PARTIAL = [
     "(C12_defective_unit_comment: same reports, no token, the loop goes on at the terminator as behind the clean comment; die clause); SEVERAL "
     "defective places in one token and an unpaired LEAD surrogate ANYWHERE followed by an ordinary character (C12_several_defects_name / _quoted / "
     "_comment, C12_invalid_char_lead_anywhere: a token body is any alternation of admissible runs and events; exactly the reports of the events, each "
-    "at its column, in order; die = the oldest) — for data names, comments, whitespace-delimited values (both dialects; scan_unquoted's data_/save_ "
+    "at its column, in order; die = the oldest) — for data names, comments (ended by a line terminator or by the end of the input), whitespace-delimited values (both dialects; scan_unquoted's data_/save_ "
     "keyword state is carried along: multiS, C12_several_defects_bare), text fields (both dialects; positions and reports follow the line breaks "
     "inside the token: C12_several_defects_text) and quoted strings (CIF 2.0).  NOT proved universally: "
-    "several defective places / a lead surrogate in the middle of a triple-quoted string and of a CIF 1.1 quoted string; a lead surrogate followed by another defective unit; a "
-    "comment that ends at the end of the input without terminator; CIF_UNMAPPED_CHAR and byte-level CIF_INVALID_CHAR (ICU's converter; family "
+    "several defective places / a lead surrogate in the middle of a triple-quoted string and of a CIF 1.1 quoted string; a lead surrogate "
+    "followed by another defective unit; CIF_UNMAPPED_CHAR and byte-level CIF_INVALID_CHAR (ICU's converter; family "
     "parsebytes of C03 observes them)",
     "CHARACTER LEVEL (Props/C12Chars, C12Frames, C12Die; Lemmas/DefectChars*, ParserReach): the token-level class theorems carried to whole parses "
     "of TEXTS — any chunk list accepted by okC (every admissible presentation of every token, any whitespace and comments between tokens), lines "
